@@ -142,3 +142,140 @@ def const_int(e, enums=None):
         v = const_int(e[2], enums)
         return -v if v is not None else None
     return None
+
+
+# --------------------------------------------------------------------------
+# normalisation: aliases, single-definition locals, accessor inlining
+
+def single_defs(fn):
+    """{local id: init expr} for locals defined exactly once (their declaration)
+    and never assigned, inc/dec'd or address-taken afterwards"""
+    defs, bad = {}, set()
+    for s in ir.stmts(fn['body']):
+        if s['k'] == 'decl':
+            for d in s['decls']:
+                if d['init'] is not None and not d['static']:
+                    defs[d['id']] = d['init']
+                else:
+                    bad.add(d['id'])
+    for e, _ in ir.all_exprs(fn['body']):
+        for x in ir.walk(e):
+            if x[0] == 'assign':
+                t = ir.top_nocast(x[2])
+                if t[0] == 'local':
+                    bad.add(t[2])
+            elif x[0] == 'un' and x[1] in ('pre++', 'pre--', 'post++', 'post--', '&'):
+                t = ir.top_nocast(x[2])
+                if t[0] == 'local':
+                    bad.add(t[2])
+    return {k: v for k, v in defs.items() if k not in bad}
+
+
+def accessor_body(P, name):
+    """if `name` is a pure accessor — only alias declarations followed by a single
+    `return expr` — return (fn, expr with aliases resolved to params), else None"""
+    f = P.functions.get(name)
+    if f is None:
+        return None
+    body = f['body']['body']
+    if not body or body[-1]['k'] != 'return' or body[-1]['expr'] is None:
+        return None
+    alias = {}
+    for s in body[:-1]:
+        if s['k'] != 'decl':
+            return None
+        for d in s['decls']:
+            if d['init'] is None:
+                return None
+            t = ir.top_nocast(d['init'])
+            if t[0] != 'param':
+                return None
+            alias[d['id']] = t
+    ret = body[-1]['expr']
+    # must be side-effect free
+    for x in ir.walk(ret):
+        if x[0] == 'assign' or (x[0] == 'un' and x[1] in ('pre++', 'pre--', 'post++', 'post--')):
+            return None
+
+    def f2(x):
+        if x[0] == 'local' and x[2] in alias:
+            return alias[x[2]]
+        return x
+    return f, ir.rebuild(ret, f2)
+
+
+class Norm:
+    """expression normaliser for one function"""
+
+    def __init__(self, P, fn, expand_locals=False, inline=True, keep=()):
+        self.P = P
+        self.fn = fn
+        self.defs = single_defs(fn)
+        self.expand_locals = expand_locals
+        self.inline = inline
+        self.keep = set(keep)       # accessor names not to inline
+
+    def _alias(self, lid):
+        d = self.defs.get(lid)
+        if d is None:
+            return None
+        t = ir.top_nocast(d)
+        if t[0] == 'param':
+            return t
+        if t[0] == 'local':
+            return self._alias(t[2]) or None
+        return None
+
+    def norm(self, e, depth=4):
+        P = self.P
+
+        def f(x):
+            k = x[0]
+            if k == 'local':
+                a = self._alias(x[2])
+                if a is not None:
+                    return a
+                if self.expand_locals and x[2] in self.defs and depth > 0:
+                    return self.norm_raw(self.defs[x[2]], depth - 1)
+                return x
+            if k == 'call' and self.inline and depth > 0:
+                nm = ir.callee_name(x)
+                if nm and nm not in self.keep:
+                    ab = accessor_body(P, nm)
+                    if ab is not None:
+                        cf, body = ab
+
+                        def sub(y):
+                            if y[0] == 'param' and 0 <= y[2] < len(x[2]):
+                                return x[2][y[2]]
+                            return y
+                        inl = ir.rebuild(body, sub)
+                        return Norm(P, cf, False, True, self.keep).inline_only(inl, depth - 1)
+            return x
+        return ir.rebuild(e, f)
+
+    def norm_raw(self, e, depth):
+        return self.norm(e, depth)
+
+    def inline_only(self, e, depth):
+        """inline accessor calls in an already-substituted expression (no local resolution)"""
+        P = self.P
+
+        def f(x):
+            if x[0] == 'call' and depth > 0:
+                nm = ir.callee_name(x)
+                if nm and nm not in self.keep:
+                    ab = accessor_body(P, nm)
+                    if ab is not None:
+                        cf, body = ab
+
+                        def sub(y):
+                            if y[0] == 'param' and 0 <= y[2] < len(x[2]):
+                                return x[2][y[2]]
+                            return y
+                        return self.inline_only(ir.rebuild(body, sub), depth - 1)
+            return x
+        return ir.rebuild(e, f)
+
+    def canon(self, e):
+        return ir.canon(self.norm(e))
